@@ -1,4 +1,4 @@
-HOOK_COMMITS = ["14ff103"]
+HOOK_COMMITS = ["14ff103", "c4cde07"]
 NOTES = ("All claims are bounded (shape concrete, content symbolic); bounds, stubs and what lies outside are in DESIGN.md §5 "
          "and repeated in every evidence file. exit 2 = infrastructure/inconclusive, never reported as pass or violation.")
 TB = ("Trusted: Kani 0.68/CBMC 6.11 translation of the pinned nightly std (dev profile); smallvec replaced by an inline-array shim "
@@ -9,7 +9,46 @@ CLAIMED = {
              "HpoTermId::try_from never panics and returns Ok(v) iff the text after byte 3 is an unsigned 32-bit decimal (value exact); "
              "byte/integer conversions are mutually inverse for all u32. Bounded model checking is the right level: the parser is a "
              "small loop-per-byte kernel whose rare failing inputs (multi-byte char straddling offset 3, overflow border) the solver finds directly.",
-        note=TB + " Display/to_string for symbolic ids is outside the claim (core::fmt is out of CBMC's reach); strings > 14 bytes outside."),
+        note=TB + " Display/to_string only on 7 concrete border ids (core::fmt on a symbolic integer is out of CBMC's reach); strings > 14 bytes outside."),
+    "C12": dict(
+        text="HpoGroup insertion (<= 5 arbitrary u32, plus one inductive insert step from any sorted group), constructors, |, &, + id over all subset pairs "
+             "of a strictly ascending symbolic-u32 universe of 3/4/6 ids, and the four ancestor-set queries of HpoTerm (own ids any u32) are decided exactly "
+             "against bit-mask set algebra. One-step/small-universe model checking fits: the code is a merge loop and a length-dependent scan whose bugs need "
+             "specific operand relations (equal length, touching ranges, duplicates).",
+        note=TB + " Groups larger than 6 ids (shim capacity), smallvec's inline->heap switch at 30 and From<HashSet> are outside."),
+    "C10": dict(
+        text="The term table (Arena) is decided to be an exact map: inserts with symbolic ids observed through the private table, lookup with ANY u32 key on a table "
+             "holding ids {0,3,9}, iteration/len/keys/values, unchecked accessors - on an id table of 16 entries instead of 10^7.",
+        note=TB + " The real 10^7-entry table, gene/disease HashMap lookups and the name searches are outside (DESIGN §5 C10)."),
+    "C19": dict(
+        text="set_default_modifier / set_default_categories on direct-state ontologies (children sets symbolic, root presence per instance) and "
+             "HpoTerm::is_modifier / categories for a term with arbitrary own id and symbolic ancestor / root / category sets are decided exactly.",
+        note=TB + " Ancestor closure is taken as given (C01); > 4 top-level branches outside; arena replaced by a direct small arena."),
+    "C06": dict(
+        text="Integer wiring of the hypergeometric tail: for all K,n <= N <= 6 and x <= 7 sf(x) sums exactly the terms i in (x, min(K,n)] with binomials "
+             "(K,i),(N-K,n-i),(N,n) in order, is exactly 1 below and 0 at/above the support; ln_binomial / ln_factorial structure and the 170/171 table switch; "
+             "Hypergeometric::new rejects exactly K>N or n>N (all u64). Decided with recording stubs for libm-dependent functions.",
+        note=TB + " All numeric statements (value of the tail probability, [0,1], monotonicity, Lanczos accuracy) and the enrichment record assembly over hash maps are outside."),
+    "C05": dict(
+        text="Matrix row/column views (all contents, dims up to 3x3) and the three StandardCombiners for every dimension in {1,2,3}^2 on the exact grid k/8 are decided "
+             "bit-exactly against the documented formulas (row vs column maxima, divisors r, c, r+c), empty matrix => 0.",
+        note=TB + " Entries off the k/8 grid, matrices > 3x3, GroupSimilarity over HpoSets and CachedSimilarity (hash map) are outside."),
+    "C03": dict(
+        text="InformationContent kernel: zero rule, -ln(current/total) structure bit-exact with ln stubbed by a monotone model, only the addressed kind written, "
+             "error border at u16::MAX with unchanged value on error, monotonicity in current; get_kind dispatch for all f32.",
+        note=TB + " libm's ln numerics and the Builder wiring (record count / per-term set size per kind: hash containers) are outside."),
+    "C07": dict(
+        text="Every record encoder (gene, OMIM own impl, ORPHA trait default, term, parent list, file header) and decoder is decided equal to the documented byte layout "
+             "for concrete shapes (name 0-3 bytes, 0-2 terms) with all content symbolic; together they give the per-record round trip. The 255-byte name cap is probed with a symbolic character at the cut.",
+        note=TB + " Whole-file as_bytes/from_bytes (section assembly, builder replay, IC recomputation), names > 3 bytes except the cap probe, > 2 terms are outside."),
+    "C08": dict(
+        text="Header/version detection for every byte string of 0/4/5/8 bytes and all 256 version bytes, release-date header for v1-v3, v1 and v2 term layouts, and rejection of "
+             "truncated / extended / mis-announced gene, disease and term records (every slice length for the smallest shapes, +-1..4 for others; total and n_terms fields any u32).",
+        note=TB + " The section walk of Ontology::from_bytes (whole-file truncation offsets, record order independence) is outside."),
+    "C17": dict(
+        text="Combinations: one next() from every concrete cursor position reachable from new()/set_to_last() over 0..=4 slots with a symbolic dead/live pattern returns the next live pair and "
+             "advances exactly behind it (one-step induction); exhausted stays exhausted; Linkage size bookkeeping and leaf order on directly built dendrograms.",
+        note=TB + " The merge loops of Linkage::{single,complete,average,union} (HashMap distance matrix) are outside; the induction over cursor positions is an argument, not a solver query."),
 }
 NOT_APPLICABLE = {
     "C02": "observable state is membership in std HashSet/HashMap per term; symbolic membership in hashbrown does not finish symbolic execution (DESIGN §1, §5)",
@@ -19,7 +58,7 @@ NOT_APPLICABLE = {
     "C16": "metamorphic relation between two whole constructions; one construction is already out of reach",
 }
 # properties whose harnesses are not built yet are listed as not (yet) claimed
-PENDING = ["C01", "C03", "C04", "C05", "C06", "C07", "C08", "C10", "C12", "C13", "C15", "C17", "C18", "C19"]
+PENDING = ["C01", "C04", "C13", "C15", "C18"]
 for p in PENDING:
     if p not in CLAIMED:
         NOT_APPLICABLE[p] = "not claimed yet: harnesses under construction (planned in DESIGN.md §5)"
